@@ -85,8 +85,11 @@ def run_shard(shard, tier, acc):
     else:
         from mc import docgen
         for doc in docgen.iter_shard(tier, sh, purpose='faults'):
-            for (i, at) in enumerate(doc.fault_points()):
+            for (at, in_math) in doc.fault_points(want_math=True):
                 for f in FAULTS:
+                    if f == '$$' and in_math:
+                        # inside a formula '$$' is two inline delimiters, not one unmatched display delimiter
+                        continue
                     s2 = doc.text[:at] + f + doc.text[at:]
                     acc.count('faults_injected')
                     check_strict(s2, doc.ctx, acc, sub='faults', must_reject=True,
